@@ -65,7 +65,7 @@ def replay_state(chk, st, cplx):
                     chk.violation('C16:minvar:%s:not-positive' % mode, 'minvar PSD is not real and strictly positive', case)
         # the class: same values (doubled one-sided for real data)
         exp = 1.0 / form.real
-        ok, obj = call_guard(lambda: pminvar(xa.copy(), m, NFFT=nfft))
+        ok, obj = call_guard(lambda: pminvar(xa.copy(), m, NFFT=nfft, sampling=1.0, scale_by_freq=False))
         if ok:
             ok, v = call_guard(lambda: np.array(obj.psd))
         if not ok:
